@@ -32,6 +32,7 @@ thread_local! {
     static LOG: RefCell<Vec<Event>> = const { RefCell::new(Vec::new()) };
     static RECORDING: Cell<bool> = const { Cell::new(false) };
     static VIRTUAL_NANOS: Cell<Option<u64>> = const { Cell::new(None) };
+    static READ_COST_NANOS: Cell<u64> = const { Cell::new(0) };
 }
 
 /// Start (or stop) recording events on this thread. Off by default.
@@ -67,6 +68,12 @@ pub fn advance_virtual_time(nanos: u64) {
     });
 }
 
+/// Charge `nanos` of virtual time for every reading of the clock (`Instant::elapsed`): lets a harness
+/// make a time limit run out inside a loop that calls nothing but the clock. 0 (default) = free.
+pub fn set_clock_read_cost(nanos: u64) {
+    READ_COST_NANOS.with(|c| c.set(nanos));
+}
+
 /// Drop-in for `std::time::Instant` inside the planners' timed loops.
 #[derive(Clone, Copy, Debug)]
 pub enum Instant {
@@ -86,6 +93,7 @@ impl Instant {
         match self {
             Instant::Real(i) => i.elapsed(),
             Instant::Virtual(t0) => {
+                advance_virtual_time(READ_COST_NANOS.with(|c| c.get()));
                 Duration::from_nanos(virtual_time().unwrap_or(*t0).saturating_sub(*t0))
             }
         }
